@@ -86,7 +86,10 @@ def SLP.static (p : SLP) : Except Err Unit :=
 def checkRet (p : SLP) (out : List Rat) : Except Err (List Rat) :=
   match p.retLen with
   | some n => if p.retUnit || out.length != n then .error (.other "ReturnTypeMismatch") else pure out
-  | none => pure out
+  | none =>
+    -- `return [()]`: a list holding an empty tuple, not a sequence of numbers (Python; TypeScript rejects the
+    -- text before, see `SLP.static`); Julia's `return ()` is the empty tuple
+    if p.retUnit && p.retBracket then .error (.other "ReturnNotNumeric") else pure out
 
 /-- `model(time, variables, *free)` -/
 def runSLP (p : SLP) (t : Rat) (xs ps : List Rat) : Except Err (List Rat) := do
@@ -137,6 +140,16 @@ def noIA (m : List (Name × Val)) : Bool :=
 def emittedPars (c : Content) (cache : Cache) : List (Name × Rat) :=
   cache.allPars.filter fun kv => !(omKeys c.derived).contains kv.1
 
+/-- variables that no reaction changes: they get the assignment `d<x>dt = 0`, written only when there is any
+    equation at all (after `fix: a variable that no reaction changes gets the derivative zero in generated model
+    code`) -/
+def zeroVars (variables : List Name) (de : List (Name × List (Name × Coef))) : List Name :=
+  if de.isEmpty then [] else variables.filter fun v => !(omKeys de).contains v
+
+/-- `ret_order = list(variables)`; `ret = ", ".join(d<i>dt …) if len(diff_eqs) > 0 else "()"` -/
+def retNames (variables : List Name) (de : List (Name × List (Name × Coef))) : List Name :=
+  if de.isEmpty then [] else variables.map dName
+
 def genModel (bad : List Name) (c : Content) (L : Lang) (free : List Name) : Except Err SLP := do
   let cache ← createCache c                         -- get_initial_conditions / _create_cache
   let variables := omKeys cache.init
@@ -153,7 +166,8 @@ def genModel (bad : List Name) (c : Content) (L : Lang) (free : List Name) : Exc
          assigns := (parameters.map fun kv => (T.target kv.1, Rhs.const kv.2))
                     ++ (body.map fun kr => (T.target kr.1, kr.2))
                     ++ (de.map fun vs => (T.target (dName vs.1), Rhs.lin vs.2))
-         ret := (variables.filter fun v => (omKeys de).contains v).map dName
+                    ++ ((zeroVars variables de).map fun v => (T.target (dName v), Rhs.const 0))
+         ret := retNames variables de
          retUnit := de.isEmpty
          retBracket := T.retBracket
          retLen := if T.sizedRet then some variables.length else none }
@@ -182,6 +196,8 @@ def numCoefs (c : Content) : Bool :=
 /-- every variable occurs in some reaction's stoichiometry, and only variables do -/
 def allVarsHaveEq (c : Content) : Bool :=
   (omKeys c.vars).all fun v => (omKeys (diffEqs c.rxns)).contains v
+/-- there is at least one differential equation (otherwise the return line is `()` / `[()]`, F-C07-3) -/
+def hasEq (c : Content) : Bool := !(diffEqs c.rxns).isEmpty
 def stoichOnVars (c : Content) : Bool :=
   (omKeys (diffEqs c.rxns)).all fun v => (omKeys c.vars).contains v
 
@@ -198,11 +214,12 @@ def wellNamed (c : Content) : Bool :=
   && c.rxns.all fun kv => nodupB (omKeys kv.2.stoich)
 
 /-- the decidable hypothesis of `C07_equiv_partial`: no surrogates / data (variables and parameters may be
-    initial assignments), numeric coefficients (a limit of the proof), well-formed names, every variable
-    has an equation and only variables do (F-C07-3), at least one variable -/
+    initial assignments), numeric coefficients (a limit of the proof), well-formed names, at least one
+    differential equation (F-C07-3; a variable that no reaction changes is allowed since `fix: a variable that no
+    reaction changes gets the derivative zero …`), only variables have equations, at least one variable -/
 def okC (c : Content) : Bool :=
   c.surs.isEmpty && c.data.isEmpty && numCoefs c && wellNamed c
-    && allVarsHaveEq c && stoichOnVars c && !c.vars.isEmpty
+    && hasEq c && stoichOnVars c && !c.vars.isEmpty
 
 /-- the requested free parameters are distinct plain parameters and one value is supplied for each -/
 def freeOkB (c : Content) (free : List Name) (ps : List Rat) : Bool :=
